@@ -18,6 +18,11 @@ fn main() {
         // E8: a foreign process attempting to open a directory (C18)
         std::process::exit(props::c18::child_open(&args[1], &args[2]));
     }
+    if args[0] == "--dump-c17-seeds" {
+        let n = props::c17::dump_seeds(std::path::Path::new(&args[1])).expect("write seeds");
+        println!("{n} seed inputs written");
+        return;
+    }
     let id = args[0].as_str();
     let rest = &args[1..];
     let code = match id {
